@@ -22,6 +22,8 @@ import (
 //	                   error: decoder errors are sticky, `continue` spins forever
 //	R-close-once       a channel held in a struct field / pending table is closed at most once
 //	R-bounded-scanner  background stream readers do not use bufio.Scanner with its default 64 KiB token limit
+//	R-header-value     members copied into request headers are stored only after a test of the value (or from a header)
+//	R-close-succeeds   closing a child's pipe reports an error only when it is not os.ErrClosed
 //	R-closed-recv      a receive from a channel that another function closes uses the comma-ok form
 //	R-lock-balanced    every mutex acquired on a client path is released on every path
 //	R-reconnect-paced  a loop repeating an HTTP exchange waits on a timer or consumes peer input on every trip
@@ -165,6 +167,8 @@ func checkC07(c *Ctx) {
 	c07SendVsClose(c, fns)
 	// a stream the server ends makes the reader close every pending channel: a call that also closes its own panics
 	c08SingleCloser(c, fns)
+	c07HeaderValuesValidated(c, fns)
+	c07CloseAfterExit(c)
 	c06IndexGuard(c, fns, "R-index-guard")
 	c07AnswerNonNil(c, fns)
 
@@ -873,4 +877,248 @@ func scannersBounded(c *Ctx, fns []*ssa.Function, rule string) {
 		c.R.Hold(rule, "no bufio.Scanner on peer streams", "", "all stream readers use bufio.Reader")
 	}
 	c.R.Min(rule, 1)
+}
+
+// c07HeaderValuesValidated (R-header-value): what a client copies from one of its members into a header of its requests
+// must be a valid header value, or net/http refuses to send the request — every later call fails. A member that is fed
+// from the server's stream (an SSE `id:` line) is therefore stored only after a test of the value: every store of such
+// a member takes a constant, a value read from a response header (valid by construction), or is control dependent on a
+// predicate over the value — in the storing function or at each of its call sites.
+func c07HeaderValuesValidated(c *Ctx, fns []*ssa.Function) {
+	fed := map[string]string{} // member -> header name
+	for _, fn := range fns {
+		ir.EachCall(fn, func(call ssa.CallInstruction) {
+			n := ir.CallName(call)
+			if n != "(net/http.Header).Set" && n != "(net/http.Header).Add" {
+				return
+			}
+			args := call.Common().Args
+			if len(args) != 3 {
+				return
+			}
+			k, ok := ir.ConstStr(args[1])
+			if !ok {
+				return
+			}
+			if f, _, ok := ir.LoadedField(args[2]); ok && ir.TypeStr(f.Type) == "string" {
+				fed[f.Key()] = k
+			}
+		})
+	}
+	var safe func(fn *ssa.Function, v ssa.Value, d int) bool
+	predicateOver := func(fn *ssa.Function, at ssa.Instruction, v ssa.Value) bool {
+		pd := flow.NewPostDom(fn)
+		for _, g := range pd.ControlDepsTransitive(at.Block()) {
+			cond := g.If.Cond
+			for {
+				if u, ok := cond.(*ssa.UnOp); ok && u.Op == token.NOT {
+					cond = u.X
+					continue
+				}
+				break
+			}
+			if call, ok := cond.(*ssa.Call); ok {
+				for _, a := range call.Call.Args {
+					if a == v {
+						return true
+					}
+				}
+			}
+		}
+		return false
+	}
+	safe = func(fn *ssa.Function, v ssa.Value, d int) bool {
+		switch x := v.(type) {
+		case *ssa.Const:
+			return true
+		case *ssa.Call:
+			if n := ir.CallName(x); n == "(net/http.Header).Get" {
+				return true
+			}
+			// a trimmed header value is still a header value
+			if n := ir.CallName(x); strings.HasPrefix(n, "strings.Trim") && len(x.Call.Args) > 0 {
+				return safe(fn, x.Call.Args[0], d+1)
+			}
+		case *ssa.Phi:
+			for _, e := range x.Edges {
+				if !safe(fn, e, d+1) {
+					return false
+				}
+			}
+			return true
+		}
+		return false
+	}
+	n := 0
+	for _, fn := range c.P.LibFns {
+		if c.InitOnly()[fn] || !clientSide(c, fn) {
+			continue
+		}
+		ir.EachInstr(fn, func(_ *ssa.BasicBlock, _ int, in ssa.Instruction) {
+			st, ok := in.(*ssa.Store)
+			if !ok {
+				return
+			}
+			fa, ok := st.Addr.(*ssa.FieldAddr)
+			if !ok {
+				return
+			}
+			key, _, _, base := ir.FullField(fa)
+			hdr, isFed := fed[key]
+			if !isFed || ir.BaseAlloc(base) {
+				return
+			}
+			n++
+			var storeOK func(fn *ssa.Function, v ssa.Value, at ssa.Instruction, d int) bool
+			storeOK = func(fn *ssa.Function, v ssa.Value, at ssa.Instruction, d int) bool {
+				if safe(fn, v, 0) || predicateOver(fn, at, v) {
+					return true
+				}
+				p, isParam := v.(*ssa.Parameter)
+				if !isParam || d > 3 {
+					return false
+				}
+				idx := -1
+				for i, q := range fn.Params {
+					if q == p {
+						idx = i
+					}
+				}
+				callers := 0
+				for _, e := range ir.Callers(c.G, fn) {
+					if e.Site == nil || !c.P.IsLib(e.Caller.Func) {
+						continue
+					}
+					args := e.Site.Common().Args
+					if idx < 0 || idx >= len(args) {
+						return false
+					}
+					callers++
+					if !storeOK(e.Caller.Func, args[idx], e.Site, d+1) {
+						return false
+					}
+				}
+				return callers > 0
+			}
+			okStore := storeOK(fn, st.Val, st, 0)
+			c.R.Check(okStore, "R-header-value", "store of "+key+" in "+fname(fn), c.Pos(st.Pos()), "the value is a constant, comes from a response header, or passed a test",
+				sprintf("%s stores into %s — which the client copies into the %s header of its requests — a value taken from the server's stream without testing it: an id with a control character makes net/http reject every later request of this client", fname(fn), key, hdr))
+		})
+	}
+	var ks []string
+	for k, h := range fed {
+		ks = append(ks, k+" -> "+h)
+	}
+	sort.Strings(ks)
+	c.R.Extra["members_copied_into_request_headers"] = ks
+	c.R.Min("R-header-value", 2)
+}
+
+// c07CloseAfterExit (R-close-succeeds): "Close still succeeds" also after the server side has gone away by itself. The
+// pipes of a child process are closed by cmd.Wait as soon as the process exits (garbage on stdout makes the transport
+// kill it), so in the transports' close path the error of closing a pipe — a closer kept next to an *exec.Cmd — may be
+// reported only after errors.Is(err, os.ErrClosed) has been ruled out.
+func c07CloseAfterExit(c *Ctx) {
+	tr := c.transportIface()
+	if tr == nil {
+		return
+	}
+	n := 0
+	for _, T := range c.P.Implementers(tr.Underlying().(*types.Interface)) {
+		cl := c.P.Method(T, c.transportCloseMethod(tr))
+		if cl == nil {
+			continue
+		}
+		for _, fn := range sortedFuncs(c.ReachSync(cl)) {
+			if !c.P.IsLib(fn) {
+				continue
+			}
+			var pd *flow.PostDom
+			ir.EachInstr(fn, func(_ *ssa.BasicBlock, _ int, in ssa.Instruction) {
+				call, ok := in.(*ssa.Call)
+				if !ok || !call.Call.IsInvoke() || call.Call.Method.Name() != "Close" || call.Referrers() == nil {
+					return
+				}
+				f, _, ok := ir.LoadedField(call.Call.Value)
+				if !ok || f.Struct == nil {
+					return
+				}
+				// a pipe: its record also holds the *exec.Cmd
+				st, ok := f.Struct.Underlying().(*types.Struct)
+				if !ok {
+					return
+				}
+				hasCmd := false
+				for i := 0; i < st.NumFields(); i++ {
+					if ir.TypeStr(st.Field(i).Type()) == "*os/exec.Cmd" {
+						hasCmd = true
+					}
+				}
+				if !hasCmd {
+					return
+				}
+				// uses of the error beyond nil tests and errors.Is
+				var isCalls []*ssa.Call
+				var uses []ssa.Instruction
+				for _, r := range *call.Referrers() {
+					switch x := r.(type) {
+					case *ssa.BinOp:
+						continue
+					case *ssa.Call:
+						if ir.CallName(x) == "errors.Is" {
+							isCalls = append(isCalls, x)
+							continue
+						}
+						uses = append(uses, x)
+					case *ssa.MakeInterface:
+						if x.Referrers() != nil {
+							for _, rr := range *x.Referrers() {
+								uses = append(uses, rr)
+							}
+						}
+					default:
+						uses = append(uses, r)
+					}
+				}
+				if len(uses) == 0 {
+					return // the error is dropped
+				}
+				n++
+				if pd == nil {
+					pd = flow.NewPostDom(fn)
+				}
+				okAll := true
+				for _, u := range uses {
+					filtered := false
+					for _, g := range pd.ControlDepsTransitive(u.Block()) {
+						cond := g.If.Cond
+						for {
+							if un, ok := cond.(*ssa.UnOp); ok && un.Op == token.NOT {
+								cond = un.X
+								continue
+							}
+							break
+						}
+						for _, ic := range isCalls {
+							if cond == ssa.Value(ic) {
+								if gl, ok := ic.Call.Args[1].(*ssa.UnOp); ok {
+									if g2, ok := gl.X.(*ssa.Global); ok && g2.Name() == "ErrClosed" {
+										filtered = true
+									}
+								}
+							}
+						}
+					}
+					if !filtered {
+						okAll = false
+					}
+				}
+				c.R.Check(okAll, "R-close-succeeds", "error of closing "+f.Key()+" in "+fname(fn), c.Pos(call.Pos()), "reported only when it is not 'already closed'",
+					sprintf("%s reports the error of closing %s without ruling out os.ErrClosed: after the child process has exited on its own (cmd.Wait closes the pipes) Close fails with 'file already closed' instead of succeeding", fname(fn), f.Key()))
+			})
+		}
+	}
+	if n == 0 {
+		c.R.Hold("R-close-succeeds", "no pipe-close error is reported by a transport's close", "", "")
+	}
 }
